@@ -856,8 +856,9 @@ class Node(object):
         `oldChild`
 
         """
-        try: self.removeChild(newChild)
-        except NotFoundErr: pass
+        if newChild is not oldChild:
+            try: self.removeChild(newChild)
+            except NotFoundErr: pass
 
         # Do the replacement
         for i, item in enumerate(self):
